@@ -9,6 +9,7 @@ import RoModel.Drivers.Chain
 import RoModel.Drivers.Cancel
 import RoModel.Drivers.NilObs
 import RoModel.Drivers.Precision
+import RoModel.Drivers.SeqEq
 import RoModel.Drivers.Overlap
 import RoModel.Drivers.Timed
 import RoModel.Drivers.Plugin
@@ -43,6 +44,7 @@ def handlers : List (String × (Case → String)) := [
   ("leak", Drivers.Cancel.runLeak),
   ("nilobs", Drivers.NilObs.run),
   ("precision", Drivers.Precision.run),
+  ("seqeq", Drivers.SeqEq.run),
   ("nextret", Drivers.Cancel.runNextRet),
   ("ctxpair", Drivers.Cancel.runCtxPair),
   ("lateuse", Drivers.Cancel.runLateUse),
